@@ -428,7 +428,11 @@ def check(chk):
     hnames = []
     for n in body_walk(q):
         if isinstance(n, ast.ExceptHandler):
-            hnames.append(src(n.type) if n.type is not None else 'bare')
+            # one entry per exception class, also when a handler names several: the finding is about the class, not about how the arms are grouped
+            if isinstance(n.type, ast.Tuple):
+                hnames.extend(src(e_) for e_ in n.type.elts)
+            else:
+                hnames.append(src(n.type) if n.type is not None else 'bare')
     for h in hnames:
         if h == 'NoConnectionsAvailable':
             continue
